@@ -231,60 +231,52 @@ pub fn make_module() -> KMap {
             (KValue::Map(m), [f]) if f.is_callable() => {
                 let m = m.clone();
                 let f = f.clone();
+
+                // The key function and the comparison of the sort keys might access the map,
+                // so the order is worked out on a copy of the entries while the map isn't borrowed.
+                let entries: Vec<(ValueKey, KValue)> = m
+                    .data()
+                    .iter()
+                    .map(|(key, value)| (key.clone(), value.clone()))
+                    .collect();
+
+                let mut sort_keys = Vec::with_capacity(entries.len());
+                for (key, value) in entries.iter() {
+                    sort_keys.push(
+                        ctx.vm
+                            .call_function(f.clone(), &[key.value().clone(), value.clone()])?,
+                    );
+                }
+
                 let mut error = None;
-
-                let get_sort_key = |vm: &mut KotoVm,
-                                    cache: &mut ValueMap,
-                                    key: &ValueKey,
-                                    value: &KValue|
-                 -> Result<KValue> {
-                    let value =
-                        vm.call_function(f.clone(), &[key.value().clone(), value.clone()])?;
-                    cache.insert(key.clone(), value.clone());
-                    Ok(value)
-                };
-
-                let mut cache = ValueMap::with_capacity(m.len());
-                m.data_mut().sort_by(|key_a, value_a, key_b, value_b| {
+                let mut order: Vec<usize> = (0..entries.len()).collect();
+                order.sort_by(|a, b| {
                     if error.is_some() {
                         return Ordering::Equal;
                     }
 
-                    let value_a = match cache.get(key_a) {
-                        Some(value) => value.clone(),
-                        None => match get_sort_key(ctx.vm, &mut cache, key_a, value_a) {
-                            Ok(val) => val,
-                            Err(e) => {
-                                error.get_or_insert(Err(e));
-                                KValue::Null
-                            }
-                        },
-                    };
-                    let value_b = match cache.get(key_b) {
-                        Some(value) => value.clone(),
-                        None => match get_sort_key(ctx.vm, &mut cache, key_b, value_b) {
-                            Ok(val) => val,
-                            Err(e) => {
-                                error.get_or_insert(Err(e));
-                                KValue::Null
-                            }
-                        },
-                    };
-
-                    match compare_values(ctx.vm, &value_a, &value_b) {
+                    match compare_values(ctx.vm, &sort_keys[*a], &sort_keys[*b]) {
                         Ok(ordering) => ordering,
                         Err(e) => {
-                            error.get_or_insert(Err(e));
+                            error = Some(e);
                             Ordering::Equal
                         }
                     }
                 });
 
                 if let Some(error) = error {
-                    error
-                } else {
-                    Ok(KValue::Map(m))
+                    return Err(error);
                 }
+
+                // Apply the order to the map
+                let mut ranks = std::collections::HashMap::with_capacity(entries.len());
+                for (rank, index) in order.into_iter().enumerate() {
+                    ranks.insert(entries[index].0.clone(), rank);
+                }
+                m.data_mut()
+                    .sort_by(|key_a, _, key_b, _| ranks.get(key_a).cmp(&ranks.get(key_b)));
+
+                Ok(KValue::Map(m))
             }
             (instance, args) => unexpected_args_after_instance(expected_error, instance, args),
         }
